@@ -29,7 +29,7 @@ def _length():
 
 class ResetSub(Sub):
     name = "reset-controller"
-    budget = {"quick": 3000, "thorough": 40000}
+    budget = {"quick": 5000, "thorough": 60000}
     rule = ("PHYResetController(clock_frequency from 8 values, reset R and stop S cycles 1..300 each (stop <, =, > reset, "
             "power-of-two edges), power_on_reset on/off) driven with 0..4 trigger events (pulse or level, placed while "
             "idle, during reset, during stop, spanning the end of a sequence); oracle: every phy_stop pulse is exactly R+S "
